@@ -24,6 +24,22 @@ UPDATABLE = ('camx:uamiv:Memmap', 'camx:lateral_boundary:Memmap',
 
 def gen_spec(rng, kind=None, idx=None, update_mode=False):
     rs = _gen_spec(rng, kind, idx)
+    # the readers' rarely used, documented keywords
+    r = rng.random()
+    if rs['kind'] == 'bpch1' and r < 0.5:
+        nt = rs['spec']['nt']
+        if nt >= 2 and r < 0.25:
+            # (start, stop) of a slice over the time blocks
+            rs['open_kw'] = {'timeslice': [0, nt - 1] if r < 0.12
+                             else [1, None]}
+        elif r < 0.37:
+            rs['open_kw'] = {'noscale': True}
+        else:
+            rs['open_kw'] = {'nogroup': True}
+    elif rs['kind'] == 'bpch2' and r < 0.3:
+        rs['open_kw'] = {'noscale': True} if r < 0.15 else {'nogroup': True}
+    elif rs['kind'] == 'arl' and r < 0.3:
+        rs['open_kw'] = {'cache': True}
     if update_mode and rs['kind'] in UPDATABLE and rng.random() < 0.5:
         # opened for update: the memory map is writable, so whatever shares
         # it can change the file
@@ -79,16 +95,19 @@ def _open(rs, d):
         with open(os.path.join(d, 'diaginfo.dat'), 'w') as fh:
             fh.write(refbpch.diaginfo_text(spec))
         from PseudoNetCDF.geoschemfiles import bpch1, bpch2
+        kw = dict(rs.get('open_kw') or {})
+        if 'timeslice' in kw:
+            kw['timeslice'] = slice(*kw['timeslice'])
         if kind == 'bpch1' and rs.get('open_mode'):
-            return bpch1(p, mode=rs['open_mode'])
-        return (bpch1 if kind == 'bpch1' else bpch2)(p)
+            kw['mode'] = rs['open_mode']
+        return (bpch1 if kind == 'bpch1' else bpch2)(p, **kw)
     if kind == 'arl':
         img, _ = refarl.encode(spec)
         p = os.path.join(d, 'img.arl')
         with open(p, 'wb') as fh:
             fh.write(img)
         from PseudoNetCDF.noaafiles import arlpackedbit
-        return arlpackedbit(p)
+        return arlpackedbit(p, **(rs.get('open_kw') or {}))
     if kind == 'ffi1001':
         from .props import c19
         src = c19.build(spec)
